@@ -458,13 +458,21 @@ func init() {
 // oracle    every request of the pipeline gets its reply at quiescence
 // ---------------------------------------------------------------------------
 
-func c02bannedBody() {
+func c02bannedBody() { c02banned(false) }
+
+// the same with the proxy's backend connection being reset right before any one of its reads or writes
+func c02bannedFaultsBody() { c02banned(true) }
+
+func c02banned(faults bool) {
 	cl := cluster.New(1, 0, 1)
 	s := vfStartStack(cl, vfSvcConfig(0, c13cps(true, 8), 0))
 	k := cl.KeyInGroup("k", 0, 0)
 	w := s.NewClient("warm")
 	w.Do("SET", k, "v")
 	sched.WaitQuiescent()
+	if faults {
+		vnet.EnableFaults("out:")
+	}
 	shapes := [][][]string{
 		{{"GET", k}, {"APPEND", k, "x"}},
 		{{"APPEND", k, "x"}, {"GET", k}},
@@ -485,6 +493,9 @@ func c02bannedBody() {
 	}
 	for i, p := range pl {
 		banned := p[0] == "APPEND" || p[0] == "GETRANGE" || p[0] == "SETBIT"
+		if vnet.FaultsInjected() > 0 && !banned {
+			continue // the backend connection was lost: an error reply is legitimate
+		}
 		if i < len(rs) && banned != (rs[i].Kind == '-') {
 			sched.Fail("wrong-reply-for-pipelined-command / compression", fmt.Sprintf("pipeline %v: replies %v", pl, rs))
 		}
@@ -499,5 +510,12 @@ func init() {
 			b = sched.Bounds{P: 2, F: 2, Sel: 1}
 		}
 		return sched.Config{Bounds: b, Iterative: true, MaxSteps: 100000}, c02bannedBody
+	}})
+	sched.Register(&sched.Scenario{Name: "C02/banned-pipeline-faults", Setup: func(tier string) (sched.Config, func()) {
+		b := sched.Bounds{P: 0, F: 1, Sel: 1, Env: 1}
+		if tier == "thorough" {
+			b = sched.Bounds{P: 1, F: 2, Sel: 1, Env: 1}
+		}
+		return sched.Config{Bounds: b, Iterative: true, MaxSteps: 100000}, c02bannedFaultsBody
 	}})
 }
